@@ -278,6 +278,9 @@ LSTerms ==
      Op("str_prefixof", <<Sym("s", TString), Op("ite", <<P, StrC(<<97>>), Sym("s", TString)>>)>>),
      Op("bv_ult", <<Bb, Op("ite", <<Op("bv_ult", <<Cc, Bb>>), Cc, BVC(1, 2)>>)>>),
      Op("and", <<Op("equals", <<PP, Sym("pp2", TPair)>>), Op("not", <<Op("equals", <<Sym("pq", TPair2), Sym("pq2", TPair2)>>)>>)>>),
+     \* constant arrays whose index sort occurs nowhere else in the formula (a custom sort, a bit-vector sort)
+     Op("equals", <<ArrV(TSs, <<IntC(0)>>), ArrV(TSs, <<IntC(1)>>)>>),
+     Op("not", <<Op("equals", <<ArrV(TBV(2), <<BoolC(TRUE)>>), ArrV(TBV(2), <<P>>)>>)>>),
      \* string constants whose TEXT looks like an escape sequence of the Strings theory, non-ASCII and control characters:
      \* the six characters \u{41}; a\u0041; e-acute; TAB; GREEK ALPHA + backslash
      Op("equals", <<Op("str_length", <<StrC(<<92, 117, 123, 52, 49, 125>>)>>), IntC(6)>>),
